@@ -8,6 +8,7 @@
    (shortest stable-LRU prefix meeting all limits) which is what decides a violation.
 """
 import json
+import re
 import os
 import sys
 
@@ -63,6 +64,19 @@ def gen_unit(rng, n_cases):
         al = rng.choice([None, None, 0, 1, now - rng.randint(0, tmax), now - rng.randint(0, tmax) + 1, now + 5,
                          -1 if rng.random() < 0.2 else 2])
         cases.append({"mode": "unit", "items": items, "bl": bl, "il": il, "al": al, "now": now})
+    # size strings with a fractional mantissa ('1.7K' = 1740.8 bytes is the limit 1740) and stores within two bytes of it
+    for _ in range(max(30, n_cases // 12)):
+        mant = rng.choice(["0.5", "0.7", "1.7", "1.5", "2.25", "0.999", "1.001", "3.9", "0.1", "1.4", "2.6"])
+        unit = rng.choice(["K", "K", "K", "M"])
+        limit = int(UNITS[unit] * float(mant))
+        n = rng.choice([1, 2, 3, 4, 5])
+        total = max(0, limit + rng.choice([-2, -1, 0, 1, 1, 2, 7]))
+        cuts = sorted(rng.randint(0, total) for _ in range(n - 1))
+        sizes = [b - a for a, b in zip([0] + cuts, cuts + [total])]
+        tmax = rng.choice([2, 4, 10])
+        items = [[i + 1, sz, rng.randint(0, tmax)] for i, sz in enumerate(sizes)]
+        cases.append({"mode": "unit", "items": items, "bl": mant + unit, "il": rng.choice([None, None, n, n - 1]),
+                      "al": None, "now": tmax + 1})
     return cases
 
 
@@ -81,7 +95,9 @@ def gen_e2e(rng, n_cases):
         orphans = []
         if rng.random() < 0.5:
             orphans = [[rng.choice(["empty", "meta"]), rng.randint(0, tmax) * 1000 + 500] for _ in range(rng.choice([1, 1, 2, 3]))]
-        cases.append({"mode": "e2e", "entries": entries, "orphans": orphans, "bl": bl, "il": il, "al": al, "now": now})
+        vanish = rng.choice([None, None, 0, 1, 2])     # the k-th deletion finds a stale folder: deleted, then OSError(ESTALE)
+        cases.append({"mode": "e2e", "entries": entries, "orphans": orphans, "bl": bl, "il": il, "al": al, "now": now,
+                      "vanish": vanish})
     return cases
 
 
@@ -96,7 +112,12 @@ def model_expr(fn, items, bl, il, al, now):
         try:
             mant = int(bl[:-1])
         except ValueError:
-            return None  # non-integer mantissa: outside the model (float arithmetic)
+            m = re.fullmatch(r"(\d+)\.(\d{1,3})", bl[:-1])
+            if not m:
+                return None  # not a plain decimal: outside the model (float parsing)
+            num, den = int(m.group(1) + m.group(2)), 10 ** len(m.group(2))
+            return ("show (bind (memstr_to_bytes_dec %d %d %d) (fun b => %s %s %s (Some b) %s %s))"
+                    % (num, den, ord(bl[-1]), fn, common.zlit(now), its, opt(il), opt(al)))
         return ("show (bind (memstr_to_bytes_int %s %d) (fun b => %s %s %s (Some b) %s %s))"
                 % (common.zlit(mant), ord(bl[-1]), fn, common.zlit(now), its, opt(il), opt(al)))
     return "show (%s %s %s %s %s %s)" % (fn, common.zlit(now), its, opt(bl), opt(il), opt(al))
